@@ -29,6 +29,7 @@ CONSTANTS
   ArrLens, MapLens,
   MaxNodes, MaxClosure,
   OrderGuard,   \* BOOLEAN: keep evaluation-order deviations unobservable (see SliceOrderFree)
+  AnyColl,      \* BOOLEAN: a builtin may iterate over a dynamically typed operand (what it is, is known at run time only)
   Guard(_, _, _, _)  \* family-specific extra guard on binary nodes: Guard(op, l, r, entries)
 
 VARIABLES stk, n
@@ -144,7 +145,7 @@ GLen == /\ UseLen /\ IsE(Len(stk))
 (* is derived next, with `#` available                                      *)
 GOpen == /\ IsE(Len(stk)) /\ Depth < MaxClosure
          /\ \E b \in Builtins :
-              /\ IsSliceT(Top(0).ty)
+              /\ (IsSliceT(Top(0).ty) \/ (AnyColl /\ Top(0).ty = "any"))
               /\ Step(Append(Cut(1), Open(b, Top(0).e, Top(0).ty)))
 
 GClose == /\ Len(stk) >= 2 /\ IsE(Len(stk)) /\ ~IsE(Len(stk) - 1)
